@@ -383,20 +383,27 @@ end composite
 
 inductive LKey
   | emptySet | universalSet | strings (n : Nat) | complexNumbers | realNumbers | integers
-  | interval (k : List Fl × List Fl) | grid (k : List (List Fl)) | space (k : SKey) | other
+  | interval (k : List Fl × List Fl) | grid (k : List (List Fl)) | space (k : SKey)
+  | finite (mem : Atom → Prop)
 
 def Leaf.key : Leaf → LKey
   | .emptySet => .emptySet | .universalSet => .universalSet | .strings n => .strings n
   | .complexNumbers => .complexNumbers | .realNumbers => .realNumbers | .integers => .integers
   | .interval ip => .interval ip.key | .grid g => .grid g.key | .space s => .space s.key
-  | _ => .other
+  | .finite els => .finite (fun x => x ∈ els)
 
-/-- members other than finite sets; interval products well formed (`len(min_pt) ==
-len(max_pt)`, enforced by the constructor) -/
+/-- interval products are well formed (`len(min_pt) == len(max_pt)`, enforced by the
+constructor); no condition on the other classes -/
 def Leaf.simple : Leaf → Prop
   | .interval ip => ip.wf
-  | .finite _ => False
   | _ => True
+
+/-- `FiniteSet.__eq__` is extensional equality of the element tuples -/
+theorem finiteEq_iff (a b : List Atom) : finiteEq a b = true ↔ ∀ x, x ∈ a ↔ x ∈ b := by
+  simp only [finiteEq, Bool.and_eq_true, List.all_eq_true, List.contains_iff_mem]
+  constructor
+  · rintro ⟨h1, h2⟩ x; exact ⟨h1 x, h2 x⟩
+  · intro h; exact ⟨fun x hx => (h x).1 hx, fun x hx => (h x).2 hx⟩
 
 def Leaf.eqB (a b : Leaf) : Bool := (a.eqO b).getD false
 
@@ -418,5 +425,62 @@ theorem Leaf.eqB_iff (a b : Leaf) (ha : a.simple) (hb : b.simple) :
         cases h : x.eqO y with
         | none => simp_all
         | some r => cases r <;> simp_all)
+    | (next x y =>
+        rw [finiteEq_iff]
+        constructor
+        · intro h; funext z; exact propext (h z)
+        · intro h z; exact Iff.of_eq (congrFun h z))
+
+/-! ### hashes of sets -/
+
+/-- hash key of a non-composite, non-finite set is determined by its `==` key -/
+theorem Leaf.hkPlain_of_key (heap : Nat → String) (a b : Leaf) (h : a.key = b.key) :
+    a.hkPlain heap = b.hkPlain heap := by
+  cases a <;> cases b <;> simp_all [Leaf.key, Leaf.hkPlain]
+  · exact IntervalProd.hk_of_key h
+  · exact Grid.hk_of_key h
+  · exact Space.hk_of_key heap _ _ h
+
+/-- transport of a permutation of keys to a permutation of hash keys -/
+theorem perm_map_of_perm_key {α κ β : Type} (k : α → κ) (g : α → β) :
+    ∀ (l1 l2 : List α), (l1.map k).Perm (l2.map k) →
+      (∀ x ∈ l1, ∀ y ∈ l2, k x = k y → g x = g y) → (l1.map g).Perm (l2.map g)
+  | [], l2, hp, _ => by
+      have : l2 = [] := by
+        have := hp.length_eq
+        simpa using this.symm
+      subst this; simp
+  | a :: l1, l2, hp, hg => by
+      have hmem : k a ∈ l2.map k := hp.subset (by simp)
+      obtain ⟨y, hy, hky⟩ := List.mem_map.1 hmem
+      obtain ⟨s, t, rfl⟩ := List.append_of_mem hy
+      have hp' : (l1.map k).Perm ((s ++ t).map k) := by
+        have h1 : ((s ++ y :: t).map k).Perm (k y :: (s ++ t).map k) := by
+          simpa using (List.perm_middle (a := k y) (l₁ := s.map k) (l₂ := t.map k))
+        have h2 : (k a :: l1.map k).Perm (k a :: (s ++ t).map k) := by
+          rw [hky] at h1
+          exact (by simpa using hp : (k a :: l1.map k).Perm _).trans h1
+        exact h2.cons_inv
+      have ih := perm_map_of_perm_key k g l1 (s ++ t) hp'
+        (fun x hx z hz hk => hg x (by simp [hx]) z (by
+          rcases List.mem_append.1 hz with h | h
+          · simp [h]
+          · simp [h]) hk)
+      have hga : g a = g y := hg a (by simp) y (by simp) hky.symm
+      have h3 : ((s ++ y :: t).map g).Perm (g y :: (s ++ t).map g) := by
+        simpa using (List.perm_middle (a := g y) (l₁ := s.map g) (l₂ := t.map g))
+      simp only [List.map_cons]
+      rw [hga]
+      exact (List.Perm.cons _ ih).trans h3.symm
+
+theorem map_eq_of_map_key_eq {α κ β : Type} (k : α → κ) (g : α → β)
+    (hg : ∀ x y, k x = k y → g x = g y) :
+    ∀ (l1 l2 : List α), l1.map k = l2.map k → l1.map g = l2.map g
+  | [], [], _ => rfl
+  | [], _ :: _, h => by simp at h
+  | _ :: _, [], h => by simp at h
+  | a :: l1, b :: l2, h => by
+      simp only [List.map_cons, List.cons.injEq] at h ⊢
+      exact ⟨hg a b h.1, map_eq_of_map_key_eq k g hg l1 l2 h.2⟩
 
 end OdlModel.Spaces
